@@ -265,7 +265,7 @@ def known_findings(pid):
 # ------------------------------------------------------------------------------------------------
 
 class Engine:
-    def __init__(self, name, gen, features=(), sig=None, release=False, bin=None, compare=True):
+    def __init__(self, name, gen, features=(), sig=None, release=False, bin=None, compare=True, miri=0):
         self.name = name
         self.bin = bin or name
         self.gen = gen            # (tier, seed, params) -> list of scenario strings (without seq)
@@ -273,6 +273,7 @@ class Engine:
         self.sig = sig or (lambda line: line.split()[0] if line else "")
         self.release = release
         self.compare = compare
+        self.miri = miri          # number of sampled scenario lines replayed under Miri (thorough tier / widened search)
 
 
 class Prop:
@@ -319,6 +320,30 @@ def run_engine(eng, lines, tag):
             if mb is None or mb.strip() != body:
                 M.append({"engine": eng.name, "scenario": l, "impl": body, "model": mb})
     return {"M": M, "O": O, "n": len(lines), "impl": impl, "model": model}
+
+
+def run_miri(eng, lines, seed):
+    """replay a sample of scenario lines on the real crate under Miri; UB -> oracle failure"""
+    import random
+    rng = random.Random(seed)
+    sample = lines if len(lines) <= eng.miri else rng.sample(lines, eng.miri)
+    numbered = ["%d %s %s" % (k, eng.name, l) for k, l in enumerate(sample)]
+    env = dict(ENV, MIRIFLAGS="-Zmiri-disable-isolation -Zmiri-ignore-leaks", CARGO_TARGET_DIR=os.path.join(BUILD, "miri"))
+    cmd = ["cargo", "+nightly", "miri", "run", "--offline", "--quiet", "--bin", eng.bin]
+    if eng.features:
+        cmd += ["--features", ",".join(eng.features)]
+    with Lock(".miri.lock"):
+        p = subprocess.run(cmd, cwd=HARNESS, input="\n".join(numbered) + "\n", stdout=subprocess.PIPE, stderr=subprocess.PIPE, text=True, env=env, timeout=3000)
+    answered = [l for l in p.stdout.split("\n") if l.strip()]
+    out = []
+    if p.returncode != 0 and ("Undefined Behavior" in p.stderr or "error:" in p.stderr):
+        k = len(answered)
+        msg = next((l for l in p.stderr.split("\n") if "Undefined Behavior" in l or l.startswith("error")), "miri error")
+        if k < len(sample):
+            out.append({"engine": eng.name, "scenario": sample[k], "impl": "<miri: %s>" % msg[:300], "oracle": "miri-UB"})
+        else:
+            out.append({"engine": eng.name, "scenario": "<after last scenario>", "impl": "<miri: %s>" % msg[:300], "oracle": "miri-UB"})
+    return out, len(sample)
 
 
 def check(prop, tier, seed, params):
@@ -372,6 +397,11 @@ def check(prop, tier, seed, params):
                             "model": (r["model"].get(str(k)) or "")[:300]})
         all_M += r["M"]
         all_O += r["O"]
+        if eng.miri and (tier == "thorough" or widen) and "build_error" not in r:
+            mo, mn = run_miri(eng, lines, seed)
+            all_O += mo
+            evaluations += mn
+            notes.append("miri: %d scenarios of engine %s replayed, %d UB reports" % (mn, eng.name, len(mo)))
     extra = None
     if prop.extra is not None:
         extra = prop.extra({"tier": tier, "seed": seed, "widen": widen})
@@ -443,6 +473,7 @@ def check(prop, tier, seed, params):
             "impl_vs_oracle_failures": len(all_O),
             "known_findings_matched": len(known_hit),
             "exhaustive": False,
+            "notes": notes,
         },
         "assumptions": prop.assumptions + (["extraction degraded for: " + ", ".join(degraded)] if degraded else []),
         "wall_s": round(wall, 2),
